@@ -38,6 +38,7 @@ type concCase struct {
 	TileBits  []int            // tie-breaks of the tile server
 	Choices   []int
 	History   []string
+	Extra     int `json:",omitempty"` // index into sw.ExtraLines: further lines in every tree head
 }
 
 func genConc(t *rapid.T) *concCase {
@@ -60,9 +61,14 @@ func genConc(t *rapid.T) *concCase {
 	default:
 		c.Stored = rapid.Int64Range(1, c.P).Draw(t, "storedprefix")
 	}
-	nc := []int{1, 1, 1, 2}[gen.Uniform(t, 4, "nclients")]
+	nc := []int{1, 1, 2, 2}[gen.Uniform(t, 4, "nclients")]
 	oneLog := gen.Chance(t, 15, "onelog") // honest runs: everything on one log
 	oneLogB := rapid.Bool().Draw(t, "onelogb")
+	// "rising": each client's goroutines mostly follow one log with heads that grow from goroutine to goroutine,
+	// beyond the stored head, while the other client does the same (on the same log or on the other): several
+	// lookups of one client each bring a head that must be stored, and their flushes meet each other's writes
+	rising := gen.Chance(t, 30, "rising")
+	risingLog := []bool{rapid.Bool().Draw(t, "risinglog0"), rapid.Bool().Draw(t, "risinglog1")}
 	used := map[sw.ModVer]bool{}
 	for ci := 0; ci < nc; ci++ {
 		ng := rapid.IntRange(2, 3).Draw(t, "ngor")
@@ -80,6 +86,23 @@ func genConc(t *rapid.T) *concCase {
 					min = c.Stored + 1
 				}
 				l.Size = rapid.Int64Range(min, lim(l.LogB)).Draw(t, "size")
+				if rising && gen.Chance(t, 85, "risinghere") {
+					l.LogB = risingLog[ci%2]
+					lo := c.Stored + 1
+					if c.StoredB != l.LogB && c.Stored > c.P {
+						lo = c.P + 1
+					}
+					if top := lim(l.LogB); lo <= top {
+						// the g'th goroutine takes its size from the g'th slice of what lies above the stored head
+						span := top - lo + 1
+						a := lo + span*int64(g)/int64(ng)
+						b := lo + span*int64(g+1)/int64(ng) - 1
+						if b < a {
+							b = a
+						}
+						l.Size = rapid.Int64Range(a, b).Draw(t, "risingsize")
+					}
+				}
 				l.Mod = rapid.Int64Range(0, l.Size-1).Draw(t, "mod")
 				ls = append(ls, l)
 			}
@@ -88,8 +111,11 @@ func genConc(t *rapid.T) *concCase {
 		c.Work = append(c.Work, gs)
 	}
 	_ = used
+	if gen.Chance(t, 25, "extralines") {
+		c.Extra = 1 + gen.Uniform(t, len(sw.ExtraLines)-1, "extra")
+	}
 	c.TileBits = rapid.SliceOfN(rapid.IntRange(0, 1), 24, 24).Draw(t, "tilebits")
-	c.Choices = rapid.SliceOfN(rapid.IntRange(0, 7), 200, 200).Draw(t, "choices")
+	c.Choices = gen.Schedule(t, 200, "sched")
 	return c
 }
 
@@ -132,6 +158,21 @@ type concState struct {
 	issued []concLookup          // heads handed out so far (stored head first)
 	ntile  int
 	log    []handed // every signed head handed to or stored by a client, in the order of the schedule
+	logMu  sync.Mutex
+}
+
+func (s *concState) add(h handed) {
+	s.logMu.Lock()
+	s.log = append(s.log, h)
+	s.logMu.Unlock()
+}
+
+// size is how many heads have been handed over or stored so far (read by a goroutine whose lookup has just
+// returned: everything the client did for that lookup is among the first size() entries).
+func (s *concState) size() int {
+	s.logMu.Lock()
+	defer s.logMu.Unlock()
+	return len(s.log)
 }
 
 // handed is one signed head seen by a client: carried by a record response (remote or cache), read from the
@@ -236,7 +277,7 @@ func (c *concOps) noteLookup(name string, data []byte, err error) {
 		c.mu.Lock()
 		c.respHead[name[strings.Index(name, "/lookup/"):]] = hd
 		c.mu.Unlock()
-		c.st.log = append(c.st.log, handed{c.idx, "resp", name[strings.Index(name, "/lookup/"):], hd})
+		c.st.add(handed{c.idx, "resp", name[strings.Index(name, "/lookup/"):], hd})
 	}
 }
 
@@ -253,7 +294,7 @@ func (c *concOps) ReadConfig(file string) (data []byte, err error) {
 	c.do("ReadConfig", file, func() {
 		data, err = c.ops.ReadConfig(file)
 		if err == nil && strings.HasSuffix(file, "/latest") {
-			c.st.log = append(c.st.log, handed{c.idx, "config", "", append([]byte(nil), data...)})
+			c.st.add(handed{c.idx, "config", "", append([]byte(nil), data...)})
 		}
 	})
 	return
@@ -266,7 +307,7 @@ func (c *concOps) WriteConfig(file string, old, new []byte) (err error) {
 			c.mu.Lock()
 			c.wrote = append(c.wrote, append([]byte(nil), new...))
 			c.mu.Unlock()
-			c.st.log = append(c.st.log, handed{c.idx, "write", "", append([]byte(nil), new...)})
+			c.st.add(handed{c.idx, "write", "", append([]byte(nil), new...)})
 		}
 	})
 	return
@@ -289,6 +330,7 @@ func (c *concOps) SecurityError(msg string) { c.ops.SecurityError(msg) }
 func (c *concOps) VerifYield(point string)  { c.do("yield", point, func() {}) }
 
 type concOutcome struct {
+	ret              int // number of log entries when the lookup had returned
 	client, gor, idx int
 	l                concLookup
 	mv               sw.ModVer
@@ -345,8 +387,9 @@ func runConc(c *concCase, w *sw.World, assign map[string]concLookup) (*sw.Ops, [
 				for i, l := range ls {
 					mv := st.logOf(l.LogB).Mods[l.Mod]
 					lines, err := cl.Lookup(mv.Path, mv.Version)
+					ret := st.size()
 					mu.Lock()
-					outs = append(outs, concOutcome{ci, gi, i, l, mv, lines, err})
+					outs = append(outs, concOutcome{ret, ci, gi, i, l, mv, lines, err})
 					mu.Unlock()
 				}
 			}(ci, gi, ls)
@@ -363,7 +406,7 @@ func checkConc(c *concCase) pbt.Result {
 		r.Skip = true
 		return r
 	}
-	w := sw.New(sw.Config{H: c.H, NA: c.NA, Fork: c.P, NB: c.NB, Seed: int64(c.Seed)})
+	w := sw.New(sw.Config{H: c.H, NA: c.NA, Fork: c.P, NB: c.NB, Seed: int64(c.Seed), Extra: c.Extra})
 	assign := assignment(c, w)
 	ops, cops, outs, sch, st := runConc(c, w, assign)
 	if sch.Err != nil {
@@ -511,7 +554,9 @@ func checkConc(c *concCase) pbt.Result {
 			}
 		}
 		for i, e := range st.log {
-			if i == pos || e.client != o.client || len(e.raw) == 0 {
+			// (heads handed to the client, not heads it wrote; and only what it had been handed by the time the
+			// lookup returned can have spared this lookup the installing)
+			if i == pos || e.client != o.client || len(e.raw) == 0 || e.kind == "write" || o.ret > pos && i >= o.ret {
 				continue
 			}
 			if eh, ok := openHead(w, e.raw); ok && eh.n >= h.n && prefixOf(h, eh) {
@@ -521,8 +566,14 @@ func checkConc(c *concCase) pbt.Result {
 		if !mustFlush {
 			continue
 		}
+		// ... and that must have happened before the lookup returned (o.ret is read right after the return, so it
+		// can only be too generous)
 		checked := false
-		for _, e := range st.log[pos+1:] {
+		end := o.ret
+		if end > len(st.log) || end <= pos {
+			end = len(st.log)
+		}
+		for _, e := range st.log[pos+1 : end] {
 			if e.client != o.client || e.kind == "resp" {
 				continue
 			}
@@ -535,7 +586,7 @@ func checkConc(c *concCase) pbt.Result {
 			}
 		}
 		if !checked {
-			return fail(pbt.Failf("head-not-checked-against-config", "client %d: the lookup of %s@%s succeeded on a head of size %d (in A:%v B:%v) that only this lookup can have installed, yet after receiving it the client neither read a configuration value consistent with it nor stored it", o.client, o.mv.Path, o.mv.Version, h.n, h.inA, h.inB))
+			return fail(pbt.Failf("head-not-checked-against-config", "client %d: the lookup of %s@%s succeeded on a head of size %d (in A:%v B:%v) that only this lookup can have installed, yet between receiving it and returning the client neither read a configuration value consistent with it nor stored it", o.client, o.mv.Path, o.mv.Version, h.n, h.inA, h.inB))
 		}
 	}
 
